@@ -31,6 +31,7 @@ inductive Site
   | lexStagedIndex       -- `current_idx`: `get_start_index_of(staged).unwrap()`
   | lexWordEmpty         -- `find_word_type`: debug_assert!(!word.is_empty())
   | lexAdvance           -- `advance_to`: debug_assert!(is_char_boundary)
+  | lexSubUnderflow      -- `end - len` (tokenize_word), `end - start` (scan_word, make_error_token): usize underflow
   -- parser.rs
   | parseConsume         -- `consume`: debug_assert / unwrap on a token we "know" is there
   | parseOpUnwrap        -- `get_binary_operator(..).unwrap()` etc.
